@@ -18,7 +18,8 @@ CLAIMED = {
     # id: (engine, category, text, design_ref, technique, note)
     "C01": e1("Seeded deterministic simulation of the real drpcconn<->drpcserver stack over a simulated byte-stream network: every message returned by MsgRecv is "
             "compared with ground truth (per-stream prefix, exactly-once, byte integrity), every successful auto-flush send is checked to be completely on the "
-            "wire at return, and clean half-closed streams must deliver everything then io.EOF. Sampling over sizes, split/buffer/flush/cancel configurations, "
+            "wire at return, clean half-closed streams must deliver everything then io.EOF, and at quiescence no receive is blocked while a complete message of its stream has "
+            "already been read off the transport by its own reader. Sampling over sizes, split/buffer/flush/cancel configurations, "
             "chunking, back-pressure and lock-granularity interleavings of concurrent senders/receivers/closers; not a proof.",
             "DESIGN.md §8 C01", "deterministic simulation: seeded schedules + transport chunking/back-pressure; omniscient delivery oracle"),
     "C02": e1("Same simulated stack with 1-3 client goroutines issuing up to 6 rpcs on one connection while earlier rpcs are cancelled, closed, failed or abandoned at "
@@ -29,12 +30,14 @@ CLAIMED = {
             "DESIGN.md §8 C02", "deterministic simulation: seeded schedules, delayed delivery, soft/hard cancel; attribution oracle on tagged messages"),
     "C04": e1("Cancellation fired by a separate task at a scheduler-chosen instant while 1-4 operations of the rpc are in flight (incl. sends parked in a stalled or "
             "back-pressured transport, closers waiting behind them). At global quiescence (exact: nothing is runnable, no timer pending) no client call of the "
-            "cancelled rpc may still be in flight; calls blocked at the instant of cancel must report the context error; later calls fail (incl. a fresh MsgRecv and "
+            "cancelled rpc may still be in flight; calls blocked at the instant of cancel must report the context's own error (a quarter of the contexts end as an expired deadline); later calls fail (incl. a fresh MsgRecv and "
             "MsgSend issued by the harness at quiescence on every cancelled, terminated client stream); the connection is closed or the probe rpc works; the peer handler is released once the cancel/disconnect has been consumed. Two genuine defects are listed as known findings.",
             "DESIGN.md §8 C04", "deterministic simulation with exact blocked-forever census at quiescence; stall/back-pressure faults; both cancel modes"),
     "C05": e1("For every base program the fault-free twin run is executed, its transport calls are numbered per endpoint, and the k-th call of each endpoint is failed "
-            "for every k in five ways (read error, read error attached to data, write error after a partial write, peer close, local close; fail-stop endpoint). "
-            "Oracles: nothing stays inside a call, both sides report closed, later rpcs fail, everything delivered is a correct prefix of its own stream, no panic.",
+            "for every k in five ways (read error, read error attached to data, write error after a partial write, peer close, local close; fail-stop endpoint; errors are plain, "
+            "ECONNRESET- or timeout-typed by position). "
+            "Oracles: nothing stays inside a call (incl. a reader spinning on the failed transport), both sides report closed, the library closes each transport exactly once, "
+            "later rpcs fail, everything delivered is a correct prefix of its own stream, no panic.",
             "DESIGN.md §8 C05", "deterministic simulation with exhaustive enumeration of the fault position over sampled programs/schedules", "fault_enumeration"),
     "C06": e1("Histories of 1-4 ill-behaved rpcs (handlers/clients stopping early, errors, soft cancel at any instant incl. before the invoke is written, healed stalls) "
             "are driven to quiescence; if every rpc has ended on both sides and the connection does not report closed, a probe rpc (issued twice) must reach its handler and "
